@@ -234,7 +234,7 @@ type exec struct {
 // RunProcess executes every test of the history once per requested execution in
 // one simulated process, in lockstep with the model. onStep sees every step; the
 // run stops at the first step that has problems (model and reality have diverged).
-func (s *Sess) RunProcess(r *rand.Rand, h *History, m vkit.Mode, noColor bool, mutate func(op *Op), onStep func(o Op, res StepResult) bool) bool {
+func (s *Sess) RunProcess(r *rand.Rand, h *History, m vkit.Mode, noColor bool, mutate func(tp *TestPlan, idx int, op *Op), onStep func(o Op, res StepResult) bool) bool {
 	s.NewProcess(m, noColor)
 	for f, ents := range h.Pre {
 		for _, e := range ents {
@@ -253,10 +253,10 @@ func (s *Sess) RunProcess(r *rand.Rand, h *History, m vkit.Mode, noColor bool, m
 	}
 	stepOne := func(e *exec) bool {
 		op := e.plan.Ops[e.next]
-		e.next++
 		if mutate != nil {
-			mutate(&op)
+			mutate(e.plan, e.next, &op)
 		}
+		e.next++
 		res := s.Step(e.t, op, m)
 		return onStep(op, res)
 	}
